@@ -5,20 +5,24 @@ package h
 
 // Registry maps harness names to functions taking the integer bounds.
 var Registry = map[string]func(args []int64){
-	"H_Smoke":   func(a []int64) { H_Smoke(int(a[0])) },
-	"H_C09":     func(a []int64) { H_C09(int(a[0]), int(a[1])) },
-	"H_C15":     func(a []int64) { H_C15(int(a[0]), int(a[1])) },
-	"H_C12":     func(a []int64) { H_C12(int(a[0]), int(a[1])) },
-	"H_C13a":    func(a []int64) { H_C13a(int(a[0]), int(a[1])) },
-	"H_C12tok":  func(a []int64) { H_C12tok(int(a[0]), int(a[1])) },
-	"H_C13atok": func(a []int64) { H_C13atok(int(a[0]), int(a[1])) },
-	"H_Probe":   func(a []int64) { H_Probe(int(a[0])) },
-	"H_C08":     func(a []int64) { H_C08(int(a[0]), int(a[1])) },
-	"H_C08seed": func(a []int64) { H_C08seed(int(a[0]), int(a[1])) },
-	"H_C13b":    func(a []int64) { H_C13b(int(a[0]), int(a[1])) },
-	"H_C13seed": func(a []int64) { H_C13seed(int(a[0]), int(a[1])) },
-	"H_C10":     func(a []int64) { H_C10(int(a[0]), int(a[1])) },
-	"H_C10seed": func(a []int64) { H_C10seed(int(a[0]), int(a[1])) },
-	"H_C11":     func(a []int64) { H_C11(int(a[0]), int(a[1])) },
-	"H_C11seed": func(a []int64) { H_C11seed(int(a[0]), int(a[1])) },
+	"H_Smoke":     func(a []int64) { H_Smoke(int(a[0])) },
+	"H_C09":       func(a []int64) { H_C09(int(a[0]), int(a[1])) },
+	"H_C15":       func(a []int64) { H_C15(int(a[0]), int(a[1])) },
+	"H_C12":       func(a []int64) { H_C12(int(a[0]), int(a[1])) },
+	"H_C13a":      func(a []int64) { H_C13a(int(a[0]), int(a[1])) },
+	"H_C12tok":    func(a []int64) { H_C12tok(int(a[0]), int(a[1])) },
+	"H_C13atok":   func(a []int64) { H_C13atok(int(a[0]), int(a[1])) },
+	"H_Probe":     func(a []int64) { H_Probe(int(a[0])) },
+	"H_C08":       func(a []int64) { H_C08(int(a[0]), int(a[1])) },
+	"H_C08seed":   func(a []int64) { H_C08seed(int(a[0]), int(a[1])) },
+	"H_C13b":      func(a []int64) { H_C13b(int(a[0]), int(a[1])) },
+	"H_C13seed":   func(a []int64) { H_C13seed(int(a[0]), int(a[1])) },
+	"H_C07":       func(a []int64) { H_C07(int(a[0]), int(a[1])) },
+	"H_C07ladder": func(a []int64) { H_C07ladder(int(a[0]), int(a[1])) },
+	"H_C07seed":   func(a []int64) { H_C07seed(int(a[0]), int(a[1])) },
+	"H_C07layout": func(a []int64) { H_C07layout(int(a[0])) },
+	"H_C10":       func(a []int64) { H_C10(int(a[0]), int(a[1])) },
+	"H_C10seed":   func(a []int64) { H_C10seed(int(a[0]), int(a[1])) },
+	"H_C11":       func(a []int64) { H_C11(int(a[0]), int(a[1])) },
+	"H_C11seed":   func(a []int64) { H_C11seed(int(a[0]), int(a[1])) },
 }
